@@ -37,6 +37,9 @@ type PointRec struct {
 	RunningEnabled bool
 	Label          string
 	Thread         int
+	// Key is the global state at this point (threads' positions and
+	// observation hashes + pool contents); filled when state hashing is on.
+	Key string
 }
 
 // Exec is one completed execution.
@@ -55,6 +58,34 @@ type thread struct {
 	wake  chan int // value = data choice answer (or ignored)
 	done  bool
 	label string // label of the point it is parked at
+	steps int    // scheduling points passed
+	obs   uint64 // hash of everything this thread observed so far
+}
+
+// StateHashing makes Run record a state key at every choice point.
+var StateHashing = false
+
+// Observe mixes an observation of the running thread into its hash.
+func Observe(what string) {
+	if cur == nil {
+		return
+	}
+	t := cur.threads[current]
+	for i := 0; i < len(what); i++ {
+		t.obs ^= uint64(what[i])
+		t.obs *= 1099511628211
+	}
+	t.obs ^= 0xff
+	t.obs *= 1099511628211
+}
+
+func (rs *runState) stateKey() string {
+	var sb strings.Builder
+	for _, t := range rs.threads {
+		fmt.Fprintf(&sb, "t%d:%v:%d:%x|", t.id, t.done, t.steps, t.obs)
+	}
+	sb.WriteString(pool.StateKey())
+	return sb.String()
 }
 
 // run state (one execution at a time per process)
@@ -74,6 +105,7 @@ type runState struct {
 func init() {
 	pool.HookPoint = Point
 	pool.HookChoose = Choose
+	pool.HookObserve = Observe
 	pool.HookViolation = func(msg string) {
 		if cur != nil {
 			cur.exec.Violations = append(cur.exec.Violations, msg)
@@ -88,13 +120,18 @@ func Point(label string) {
 	}
 	t := cur.threads[current]
 	t.label = label
+	t.steps++
 	cur.events <- event{tid: t.id, label: label}
 	<-t.wake
 }
 
+// DataChoices switches the pool's data choices on (default) or off (Get
+// always answers with the most recently released buffer).
+var DataChoices = true
+
 // Choose is a data choice made by the running thread.
 func Choose(n int, label string) int {
-	if cur == nil || n <= 1 {
+	if cur == nil || n <= 1 || !DataChoices {
 		return 0
 	}
 	t := cur.threads[current]
@@ -112,7 +149,11 @@ func (rs *runState) nextChoice(options int, kind byte, label string, runningEnab
 			c = 0
 		}
 	}
-	rs.exec.Points = append(rs.exec.Points, PointRec{Kind: kind, Options: options, Choice: c, Cost: rs.exec.Deviations, RunningEnabled: runningEnabled, Label: label, Thread: tid})
+	key := ""
+	if StateHashing {
+		key = string(kind) + label + "|" + rs.stateKey()
+	}
+	rs.exec.Points = append(rs.exec.Points, PointRec{Kind: kind, Options: options, Choice: c, Cost: rs.exec.Deviations, RunningEnabled: runningEnabled, Label: label, Thread: tid, Key: key})
 	rs.exec.Choices = append(rs.exec.Choices, c)
 	if c != 0 {
 		if kind == 'd' || runningEnabled {
@@ -211,12 +252,18 @@ type Explorer struct {
 	Shard, Shards int
 	Stop          func() bool
 
-	Executions int64
-	Points     int64
-	MaxPoints  int
-	Outcomes   map[string]int
+	// Unbounded: no deviation bound; instead prune at already visited global
+	// states (requires StateHashing).
+	Unbounded bool
+	Seen      map[string]struct{}
+	Pruned    int64
+
+	Executions  int64
+	Points      int64
+	MaxPoints   int
+	Outcomes    map[string]int
 	OnViolation func(x *Exec)
-	Capped     bool
+	Capped      bool
 }
 
 func (e *Explorer) one(prefix []int) *Exec {
@@ -266,8 +313,15 @@ func (e *Explorer) Explore() {
 		x := e.one(prefix)
 		for i := len(prefix); i < len(x.Points); i++ {
 			p := x.Points[i]
+			if e.Unbounded {
+				if _, ok := e.Seen[p.Key]; ok {
+					e.Pruned++
+					break // everything from this state on was explored from its first visit
+				}
+				e.Seen[p.Key] = struct{}{}
+			}
 			for alt := 1; alt < p.Options; alt++ {
-				if p.Cost+altCost(p, alt) > e.Bound {
+				if !e.Unbounded && p.Cost+altCost(p, alt) > e.Bound {
 					continue
 				}
 				np := append(append([]int(nil), x.Choices[:i]...), alt)
@@ -286,6 +340,9 @@ func (e *Explorer) Explore() {
 	if e.Shards <= 0 {
 		e.Shards = 1
 	}
+	if e.Unbounded && e.Seen == nil {
+		e.Seen = map[string]struct{}{}
+	}
 	if e.Shard == 0 {
 		rec(nil, 0)
 	} else {
@@ -295,7 +352,7 @@ func (e *Explorer) Explore() {
 		for i := 0; i < len(x.Points); i++ {
 			p := x.Points[i]
 			for alt := 1; alt < p.Options; alt++ {
-				if p.Cost+altCost(p, alt) > e.Bound {
+				if !e.Unbounded && p.Cost+altCost(p, alt) > e.Bound {
 					continue
 				}
 				mine := first%e.Shards == e.Shard
